@@ -134,9 +134,13 @@ def with_eff(case, model):
         spec["eff_spec"] = specs[k] if k < len(specs) else None
     # what the model says an execution renders (own template texts of the named-template fragment, own definitions)
     wants = model.get("want", []) if isinstance(model, dict) else []
+    # ... and the requests it sends to the endpoint of its mechanism, where that endpoint is an observed one
+    calls = model.get("want_calls", []) if isinstance(model, dict) else []
     for i, op in enumerate(c["ops"]):
         if op["op"] == "exec" and i < len(wants) and wants[i] is not None:
             op["want"] = wants[i]
+        if op["op"] == "exec" and i < len(calls) and calls[i] is not None:
+            op["want_calls"] = calls[i]
     return c
 
 
@@ -172,6 +176,21 @@ def earlier_creations(case, i):
     return n
 
 
+def client_settings(case, handle):
+    """what the HTTP client of the object's endpoint is built from, for the report"""
+    objs = objects(case)
+    if handle is None or handle >= len(objs):
+        return "?"
+    spec = objs[handle][2]
+    for e in case["catalogue"]:
+        if (e["kind"], e["id"]) == (spec["kind"], spec["id"]):
+            ep = e["config"].get("endpoint") or e["config"].get("identity_info_endpoint") or {}
+            ttl = (spec.get("config") or {}).get("cache_ttl", e["config"].get("cache_ttl"))
+            return (f"{ep.get('method', 'POST')} {ep.get('url')}, http_cache: {json.dumps(ep.get('http_cache'))}, "
+                    f"retry: {json.dumps(ep.get('retry'))}, cache_ttl: {ttl}")
+    return "?"
+
+
 def explain(case, i, a, b, ob, gr, handle, what_op):
     """why the answers for an object handed out / an operation differ: (text, property level)"""
     if b.get("changed"):
@@ -194,6 +213,13 @@ def explain(case, i, a, b, ob, gr, handle, what_op):
         return (f"{what_op}: the object did not render its own template — {why}: what a mechanism renders depends on "
                 "templates of other objects created in the same process (named templates: define / block / template)",
                 True)
+    if b.get("ran") and "calls" in a and b.get("calls") != a.get("calls"):
+        own = client_settings(case, handle)
+        return (f"{what_op}: the endpoint of the mechanism received {b.get('calls')} request(s) during this execution, "
+                f"the object's own configuration ({own}) and its own earlier executions mean {a.get('calls')}: what a "
+                "mechanism does (whether a response is reused and for how long, whether a request is repeated) depends on "
+                "which other mechanisms of the process were executed before - state shared between the HTTP clients of "
+                "endpoints", True)
     if b.get("ran") and b.get("ref") is False and a.get("ref") is True:
         return (f"{what_op}: the object answered differently from the same configuration loaded on its own", True)
     if b.get("par_ok") is False:
@@ -237,7 +263,8 @@ def judge(case, m, g):
                                         f"variant {j} created during the concurrent batch (operation {i}, config "
                                         f"{json.dumps(op['creates'][j].get('config'))})")
                     return (txt, prop, i, {"obs": cob})
-        txt, prop = explain(case, i, a, b, ob, gr, first if op["op"] == "create" else None, label)
+        txt, prop = explain(case, i, a, b, ob, gr, first if op["op"] == "create" else op.get("h") if op["op"] == "exec"
+                            else None, label)
         return (txt, prop, i, {"obs": ob})
     return None
 
@@ -319,19 +346,30 @@ def shrink(exe, case, what_class, env=None):
 
 def run(R):
     t_start = time.time()
+    phases = {}
+
+    def lap(name, t0):
+        phases[name] = round(phases.get(name, 0) + time.time() - t0, 1)
+
+    t0 = time.time()
     err, info = regenerate(R)
+    lap("extract_footprints", t0)
+    t0 = time.time()
     lean_ok = vlib.step_lean(R, PID)
+    lap("lean_incl_waiting_for_the_project_lock", t0)
     # both tiers run the implementation under the race detector: the interleaving of WithConfig with Execute and
     # first uses at the same time are part of every batch
     race = True
     os.environ.setdefault("VERIF_MECH_TMP", R.tmp)
     env = dict(os.environ, GORACE="halt_on_error=1 exitcode=66", VERIF_MECH_TMP=R.tmp)
+    t0 = time.time()
     exe, log = vlib.build_harness(R.tmp, race=race, pid=PID)
+    lap("harness_build", t0)
     if exe is None:
         R.violation("harness does not build against the repository", {"build_log": log[-3000:]}, no_input=True)
         return
     corpus = vlib.load_corpus(PID)
-    n, ncold, nlook, nnamed = (132, 28, 48, 24) if R.tier == "quick" else (4000, 800, 1200, 600)
+    n, ncold, nlook, nnamed, nclient = (132, 28, 48, 24, 32) if R.tier == "quick" else (4000, 800, 1200, 600, 800)
     cases = corpus + [gen_mech.gen_case(R.rng) for _ in range(n)] + [gen_mech.gen_cold_case(R.rng) for _ in range(ncold)]
     # look-alike overrides: one factory creates, for the same catalogue entry, variants from configs that differ in type
     # or structure but print alike (some of them refused by the type's decoder), in any order
@@ -341,7 +379,13 @@ def run(R):
     # and in other mechanisms of the process, both creation orders, every earlier object executed after each creation
     named = [gen_mech.gen_named_case(R.rng) for _ in range(nnamed)]
     cases += named
+    # endpoint clients: mechanisms of one process that talk to the same host with different `retry` / `http_cache`
+    # settings, executed in any interleaving, each with a cache of its own; observed: the requests the endpoint receives
+    client = [gen_mech.gen_client_case(R.rng) for _ in range(nclient)]
+    cases += client
+    t0 = time.time()
     model, impl = run_both(exe, cases, env=env)
+    lap("stream", t0)
 
     stats = collections.Counter()
     by_type, by_status, exec_err = collections.Counter(), collections.Counter(), collections.Counter()
@@ -417,18 +461,63 @@ def run(R):
     # filled map.  What it holds may live inside a library where the footprint cannot look (the name space of named
     # templates shared by all templates derived from one base template): every template site x form of named template x
     # history shape (prototype / override / other mechanism, both orders) is tried as well.
+    # State written on the REQUEST path (a dirty row of an `Execute`: a lazily filled table of clients, connections,
+    # compiled programs): what it can do to the property is to make what one mechanism does depend on which other
+    # mechanism was executed first.  Every type with an endpoint x ordered pair of different client settings, two
+    # mechanisms of one process executed in both orders, is tried (`client_grid`).
     searched = 0
     new_state = new_package_state(info)
-    if (shared_factory_state(dirty) or new_state) and not concrete:
-        grid = gen_mech.lookalike_grid(R.rng) + gen_mech.named_grid(R.rng)
-        searched = len(grid)
+    exec_state = [d for d in dirty if d["method"] == "Execute"]
+
+    def search(grid):
+        nonlocal searched, concrete, cases
+        t0 = time.time()
+        searched += len(grid)
         gm, gi = run_both(exe, grid, env=env)
         for c, m, g in zip(grid, gm, gi):
             j = judge(c, m, g)
             if j is not None:
                 (concrete if j[1] else structural).append((c, m, g, j))
         cases += grid
-    for k, (c, m, g, j) in enumerate(concrete[:3]):
+        lap("grid_search", t0)
+
+    if (shared_factory_state(dirty) or new_state) and not concrete:
+        search(gen_mech.lookalike_grid(R.rng) + gen_mech.named_grid(R.rng))
+    if (exec_state or new_state) and not concrete:
+        search(gen_mech.client_grid(R.rng))
+
+    # All cases of a run go through ONE harness process.  Where the state of the process is what is wrong (a table
+    # filled on first use), a case may fail because of what an EARLIER case has executed and pass when replayed on its
+    # own.  A report has to be a replay that stands alone: the candidates are run again, each in a process of its own,
+    # and the first ones that show the violation there are reported (and shrunk); if none of the first candidates
+    # does, the client grid (small self-contained histories, both orders) is searched the same way, and only then the
+    # run falls back to reporting what it saw in the shared process.
+    t0 = time.time()
+
+    def standing_alone(cands, limit, want):
+        out = []
+        for c, m, g, j in cands[:limit]:
+            if len(out) >= want:
+                break
+            if j[2] is None:          # a crash / data race: the report of the run that showed it
+                out.append((c, m, g, j))
+                continue
+            am, ag = run_both(exe, [c], env=env, timeout=300)
+            ja = judge(c, am[0], ag[0])
+            if ja is not None and ja[1]:
+                out.append((c, am[0], ag[0], ja))
+        return out
+
+    reports = standing_alone(concrete, 8, 3)
+    if concrete and not reports and any("the endpoint of the mechanism received" in x[3][0] for x in concrete):
+        before = len(concrete)
+        search(gen_mech.client_grid(R.rng))
+        reports = standing_alone(concrete[before:], 12, 3)
+    if concrete and not reports:
+        reports = concrete[:3]
+    lap("confirm_alone", t0)
+    t0 = time.time()
+    for k, (c, m, g, j) in enumerate(reports):
         what, _, i, details = j
         # every probe of the shrinker is a harness process of its own (the state of a process is part of what is
         # searched): the first report is always shrunk, the others while the quick budget lasts
@@ -445,6 +534,7 @@ def run(R):
                                                      f"{sorted({w['what'] for w in d['effects']})[:2]}" for d in dirty[:2]) + "]"
         R.violation(j2[0] + extra, {"case": small, "impl": vlib.res_of(sg[0]), "model": vlib.res_of(sm[0]),
                                    "details": j2[3], "dirty_footprints": dirty[:6], "kind": "property"}, no_input=False)
+    lap("shrink", t0)
     # the behaviour of a mechanism object is a function of (type, id, effective configuration, request): whatever else
     # was created or executed before, in the same or in any other case, must not matter
     nhist = 0
@@ -497,8 +587,10 @@ def run(R):
                 "a creation that produced a variant; distinct by (mechanism type, keys of the override, created during a "
                 "batch or not, reference fields replaced)",
         "known_finding_hits": dict(R.known_hits),
+        "phase_wall_s": phases,
         "cases": len(cases), "corpus_cases": len(corpus), "lookalike_cases": len(look), "named_template_cases": len(named),
-        "grid_cases_searched_because_of_dirty_factory_footprint_or_new_package_state": searched,
+        "endpoint_client_cases": len(client),
+        "grid_cases_searched_because_of_dirty_footprint_or_new_package_state_or_history_dependent_traffic": searched,
         "package_state_variables": len(info.get("package_state") or []),
         "package_state_not_in_reviewed_tree": [v["pkg"] + "." + v["name"] + " : " + v["type"] +
                                                (" := " + v["init"] + "(…)" if v.get("init") else "")
@@ -535,7 +627,15 @@ def run(R):
         "taken as rejected (Override.valuesOk = false) and the run checks the rejection and that nothing changed",
         "runtime influence between variants through a shared cache (prototype and variants share the id, a prefix of "
         "the cache keys) is excluded: sequential executions run without cache, every goroutine of a batch has a cache "
-        "of its own (C10 / C11 own caching)",
+        "of its own, and the executions whose upstream traffic is observed (endpoint-client cases) run with a cache "
+        "per OBJECT, always with the same request per catalogue entry (C10 / C11 own caching and cache keys)",
+        "endpoint clients: the model (Model/MechClient.lean) says how many requests the endpoint of a generic "
+        "contextualizer / remote authorizer / generic authenticator receives per execution, from the object's own "
+        "effective configuration (retry, http_cache.enabled, http_cache.default_ttl, method, payload, cache_ttl) and "
+        "its own earlier executions; modelled rather than verified: the upstream of the test world answers without "
+        "freshness information (or 503 to everything), httpretry repeats a 503 five times, lifetimes are either zero or "
+        "long (30m / 1h: nothing expires during a run), durations are spelled canonically; jwks / metadata / "
+        "introspection / token endpoints are not observed this way",
         "memory newly allocated by WithConfig is private to it until it returns (the machine allocates and "
         "initialises a cell in one step)",
         "data-race freedom is a runtime property: the model shows the absence of conflicting accesses w.r.t. the "
